@@ -415,6 +415,13 @@ func c09Run(w *core.W) {
 			if len(f) != 2 {
 				continue
 			}
+			if f[0] == "FAMILY" {
+				if f[1] != c09FamilyPrint(fam) {
+					w.Violate(core.Violation{Clause: "ENGINE-binaries-differ", Input: "", Detail: "the plain and the instrumented binary enumerate different case lists: they were built from different states of the sources (rebuild with run.sh build)"})
+					return
+				}
+				continue
+			}
 			if o, ok := mine[f[0]]; ok {
 				n++
 				if o.digest() != f[1] {
@@ -440,12 +447,30 @@ func verifDirProps() string {
 // C09Digest is run by the plain binary: prints "<case id> <digest>" for one shard.
 func C09Digest(shard, of int, tier string) {
 	fam := c09Family(tier == "thorough")
+	fmt.Println("FAMILY", c09FamilyPrint(fam))
 	for i, c := range fam {
 		if of > 1 && i%of != shard {
 			continue
 		}
 		fmt.Println(c.ID, c09Observe(c).digest())
 	}
+}
+
+// c09FamilyPrint: a fingerprint of the case list. The two binaries of the cross-process
+// comparison must enumerate the same cases (they are built one after the other from
+// the same sources); if they do not, that is an error of the run, not a finding.
+func c09FamilyPrint(fam []*c09Case) string {
+	var b strings.Builder
+	for _, c := range fam {
+		b.WriteString(c.ID)
+		b.WriteByte(0)
+		if c.Project != nil {
+			b.WriteString(c.Project.describe())
+		}
+		b.WriteString(c.Text)
+		b.WriteByte(1)
+	}
+	return core.HashOf(b.String())
 }
 
 func init() {
